@@ -38,6 +38,55 @@ def overlay_provider(base, overlay):
     return get
 
 
+def _is_registry_expr(n):
+    """<obj>._g.attrs  or  <obj>._g.attrs["k"]  with <obj> a plain name"""
+    if isinstance(n, ast.Subscript) and isinstance(n.slice, ast.Constant) and isinstance(n.slice.value, str):
+        n = n.value
+    return isinstance(n, ast.Attribute) and n.attr == "attrs" and isinstance(n.value, ast.Attribute) and n.value.attr == "_g" and isinstance(n.value.value, ast.Name)
+
+
+def inline_registry_aliases(tree):
+    """`reg = self._g.attrs["k"]` ... `reg[x] = y`  ->  `self._g.attrs["k"][x] = y`: a local name bound exactly once to a
+    registry (and the registry not re-bound in the same function) is replaced by the registry expression, so that every
+    rule sees registry accesses in one spelling.  Behaviour-preserving by construction; done on the parsed tree only."""
+    import copy
+    for fn in ast.walk(tree):
+        if not isinstance(fn, (ast.FunctionDef, ast.AsyncFunctionDef)):
+            continue
+        binds = {}
+        for x in ast.walk(fn):
+            if isinstance(x, ast.Name) and isinstance(x.ctx, (ast.Store, ast.Del)):
+                binds[x.id] = binds.get(x.id, 0) + 1
+        params = {a.arg for a in fn.args.posonlyargs + fn.args.args + fn.args.kwonlyargs}
+        rebound = set()
+        for x in ast.walk(fn):
+            if isinstance(x, ast.Assign):
+                for t in x.targets:
+                    if _is_registry_expr(t):
+                        rebound.add(ast.dump(t).replace("Store()", "Load()"))
+        alias = {}
+        for x in ast.walk(fn):
+            if isinstance(x, ast.Assign) and len(x.targets) == 1 and isinstance(x.targets[0], ast.Name) and _is_registry_expr(x.value):
+                nm = x.targets[0].id
+                if binds.get(nm) == 1 and nm not in params and ast.dump(x.value) not in rebound:
+                    alias[nm] = x
+        if not alias:
+            continue
+
+        class Sub(ast.NodeTransformer):
+            def visit_Name(self, n):
+                if isinstance(n.ctx, ast.Load) and n.id in alias:
+                    return ast.copy_location(copy.deepcopy(alias[n.id].value), n)
+                return n
+
+            def visit_Assign(self, n):
+                if any(n is a for a in alias.values()):
+                    return ast.copy_location(ast.Pass(), n)
+                return self.generic_visit(n)
+        Sub().visit(fn)
+        ast.fix_missing_locations(fn)
+
+
 class Model:
     def __init__(self, provider=None):
         self.provider = provider or disk_provider()
@@ -55,6 +104,7 @@ class Model:
                 self.tree[mod] = ast.parse(text, filename=rel)
             except SyntaxError as e:
                 raise AnalysisError("%s does not parse: %s" % (rel, e))
+            inline_registry_aliases(self.tree[mod])
             for node in ast.walk(self.tree[mod]):
                 for ch in ast.iter_child_nodes(node):
                     ch._parent = node
